@@ -15,7 +15,7 @@ META = {
         "built, the vest-specific price is tested before the fallback price and carries the vest date (falling back to the "
         "parent date), the fallback entry is inserted only when no vest entry was, and a vesting action with empty details is "
         "an error. R3: the RSU arm of the row loop returns MissingFairMarketValue when no awards file is present and takes "
-        "date and price from the lookup (shared with C18-R2). Does not decide which entry wins for concrete dates. R3 also: the construction of the RSU purchase row that is reachable from the lookup within one row's iteration is dominated by that lookup (no second way to it with a value kept from an earlier row)."),
+        "date and price from the lookup (shared with C18-R2). Does not decide which entry wins for concrete dates. R3 also: the construction of the RSU purchase row that is reachable from the lookup within one row's iteration is dominated by that lookup (no second way to it with a value kept from an earlier row). R4: every action name listed in a string classifier of the awards module reaches the arm it is listed under — the vesting / non-vesting sets the code lists are the sets it acts on."),
     "trusted_base": ["chrono checked_sub_signed / TimeDelta::days semantics", "HashMap::get returns the stored entry for an equal key"],
 }
 
